@@ -599,6 +599,98 @@ example :
       | .ok (_, τ) => decide (τ = ⟨⟨{}, .vector .int32 3⟩, .rvalue⟩)
       | _ => false)) = true := by decide
 
+/-! ### `?:` with a vector / matrix arm (fix c05bffa) -/
+
+theorem litTernRemap_concrete (s : Scalar) : litTernRemap s ≠ .intLiteral ∧ litTernRemap s ≠ .floatLiteral := by
+  cases s <;> decide
+
+theorem ofDim_concrete {s : Scalar} (d : Dim) (h : s ≠ .intLiteral ∧ s ≠ .floatLiteral) :
+    (Layer.ofDim s d).extractScalar ≠ some .intLiteral ∧ (Layer.ofDim s d).extractScalar ≠ some .floatLiteral := by
+  cases d <;> simp [Layer.ofDim, Layer.extractScalar, h.1, h.2]
+
+theorem ternTargets_concrete {la lb lt rt : Layer} (h : ternTargets la lb = .ok (lt, rt)) (heq : lt = rt)
+    (hv : lt.isVecOrMat = true) :
+    lt.extractScalar ≠ some .intLiteral ∧ lt.extractScalar ≠ some .floatLiteral := by
+  subst heq
+  cases la <;> cases lb <;>
+    simp [ternTargets, Layer.extractScalar, mostSignificantDimension, ternScalar, Layer.transformScalar] at h
+  all_goals (try (obtain ⟨rfl, h2⟩ := h))
+  all_goals (try (simp at h2; done))
+  all_goals (try (simp [Layer.ofDim, Layer.isVecOrMat] at hv; done))
+  all_goals (try (exact ofDim_concrete _ (litTernRemap_concrete _)))
+  all_goals (try (simp [Layer.extractScalar]; exact litTernRemap_concrete _))
+  all_goals (
+    split at h
+    all_goals (try (simp at h; done))
+    all_goals (try (rename_i hs hd; simp at hs; done))
+    all_goals (try (
+      rename_i hs hd
+      simp at hs; subst hs
+      simp at h; obtain ⟨rfl, _⟩ := h
+      exact ofDim_concrete _ (litTernRemap_concrete _)))
+    all_goals (try (
+      rename_i hs hd
+      simp at hs; subst hs
+      simp at h; obtain ⟨rfl, _⟩ := h
+      simp [Layer.extractScalar]; exact litTernRemap_concrete _)))
+
+theorem ternBuild_result {c a b n : IExpr} {τc τa τb d τ' : ETy} {ca cb : Conversion}
+    (hfa : find τa d = .ok (some ca)) (hfb : find τb d = .ok (some cb))
+    (h : ternBuild c τc ca cb a b = .ok (n, τ')) : τ' = d := by
+  unfold ternBuild at h
+  rw [targetType_ok hfa, targetType_ok hfb] at h
+  split at h
+  · simp at h
+  · split at h
+    · simp at h
+    · simp only [ne_eq, not_true_eq_false, if_false] at h
+      split at h
+      · simp at h
+      · split at h
+        · simp at h
+        · simp at h
+        · simp at h; exact h.2.symm
+
+theorem elabTern_result_layer {c a b n : IExpr} {τc τa τb τ' : ETy} (h : elabTern c τc a τa b τb = .ok (n, τ')) :
+    ∃ lt rt, ternTargets τa.ty.layer τb.ty.layer = .ok (lt, rt) ∧ lt = rt ∧ τ'.ty.layer = lt := by
+  unfold elabTern at h
+  split at h
+  · simp at h
+  · rename_i lt rt htt
+    split at h
+    · simp at h
+    · rename_i heq
+      split at h
+      all_goals (first | (simp at h; done) | skip)
+      rename_i ca hfa
+      split at h
+      all_goals (first | (simp at h; done) | skip)
+      rename_i cb hfb
+      have := ternBuild_result hfa hfb h
+      subst this
+      exact ⟨lt, rt, htt, by simpa using heq, rfl⟩
+
+/-- **A conditional expression with a vector / matrix arm has a concrete element kind** (fix c05bffa): the type of an accepted
+    `c ? a : b` that is a vector or matrix never has the element kind `IntLiteral` / `FloatLiteral` (`c ? v : 1.5` for `int3 v`
+    used to be typed `Vector(FloatLiteral, 3)`) -/
+theorem elab_tern_vector_kind_concrete {Γ : Env} {dbg : Bool} {c a b : SExpr} {e' : IExpr} {τ : ETy}
+    (h : elabE dbg Γ (.tern c a b) = .ok (e', τ)) (hv : τ.ty.layer.isVecOrMat = true) :
+    τ.ty.layer.extractScalar ≠ some .intLiteral ∧ τ.ty.layer.extractScalar ≠ some .floatLiteral := by
+  simp only [elabE] at h
+  split at h
+  · simp at h
+  · split at h
+    · simp at h
+    · split at h
+      · simp at h
+      · split at h
+        · simp at h
+        · rename_i n τn hn
+          obtain ⟨_, rfl⟩ := selfCheck_type h
+          obtain ⟨lt, rt, htt, heq, hl⟩ := elabTern_result_layer hn
+          rw [hl] at hv ⊢
+          exact ternTargets_concrete htt heq hv
+
 /-- **Accepted calls.**  The callee exists, the result has its return type, and every argument expression has
     exactly the type of its parameter — no implicit conversion remains. -/
 theorem elab_call_args_exact {Γ : Env} {dbg : Bool} {name : Nat} {args : SArgs} {e' : IExpr} {τ : ETy}
